@@ -38,11 +38,24 @@ def alarm_selftest():
             return 0
         env = dict(os.environ, VERIF_REPO=wt, VERIF_EVIDENCE_DIR=os.path.join(d, "ev"), VERIF_REPLAY_DIR=os.path.join(d, "rp"))
         r = subprocess.run([sys.executable, os.path.join(verif, "vf", "check.py"), "C01"], capture_output=True, text=True, env=env, cwd=verif)
-        if r.returncode == 1 and "VIOLATION property=C01" in r.stdout:
-            print("alarm self-test ok: the seeded change C01-a is reported")
+        if not (r.returncode == 1 and "VIOLATION property=C01" in r.stdout):
+            print("alarm self-test FAILED: check.py C01 exits %d on a tree with the seeded change C01-a\n%s" % (r.returncode, r.stdout[-600:]))
+            return 3
+        print("alarm self-test ok: the seeded change C01-a is reported (Verus path)")
+        # second path: the bounded native families (seeded change C12-b: SO2State::new no longer canonicalises large angles)
+        subprocess.run(["patch", "-p1", "-s", "-R", "-i", patch], cwd=wt, capture_output=True, text=True)
+        patch2 = os.path.join(verif, "seeded", "C12-b", "patch.diff")
+        a = subprocess.run(["patch", "-p1", "-s", "-i", patch2], cwd=wt, capture_output=True, text=True)
+        if a.returncode != 0:
+            print("alarm self-test (native family path) skipped: seeded/C12-b/patch.diff does not apply to this tree")
             return 0
-        print("alarm self-test FAILED: check.py C01 exits %d on a tree with the seeded change C01-a\n%s" % (r.returncode, r.stdout[-600:]))
-        return 3
+        env["VERIF_SKIP_K"] = "1"
+        r = subprocess.run([sys.executable, os.path.join(verif, "vf", "check.py"), "C12"], capture_output=True, text=True, env=env, cwd=verif)
+        if not (r.returncode == 1 and "VIOLATION property=C12" in r.stdout):
+            print("alarm self-test FAILED: check.py C12 (native lattice family) exits %d on a tree with the seeded change C12-b\n%s" % (r.returncode, r.stdout[-600:]))
+            return 3
+        print("alarm self-test ok: the seeded change C12-b is reported (native family path)")
+        return 0
     finally:
         shutil.rmtree(d, ignore_errors=True)
 
